@@ -35,6 +35,11 @@ public class Math {
         return 64 - Long.numberOfLeadingZeros(x);
     }
 
+    public static int length(BigInteger b) {
+        // bits in the magnitude, as bintLength
+        return b.abs().bitLength();
+    }
+
     public static MultiRecord divide(int i1, int i2) {
         MultiRecord result = new MultiRecord(divideFormat);
         result.setField(0, "quo", Value.U.fromSInt(i1 / i2));
